@@ -51,7 +51,7 @@ def _instances(tier):
 
 LT_BASE = "CONSTANTS N = %d  EARLY_PUBLISH = %s  SPLIT_ASSIGN = %s  TORN_READ = %s  LOCKED = \"%s\"\nSPECIFICATION Spec\n"
 LT_INV = ("INVARIANTS TypeOK PubEmptyOrComplete CoordsOldOrNew AloneOK LocIsPrefix ReaderOK FinalOK\n"
-          "PROPERTIES StepsAreEffects BuilderFinishes NeverBlockedForever\n")
+          "PROPERTIES StepsAreEffects BuilderFinishes NeverBlockedForever TableNeverShrinks\n")
 
 
 def _all_tlc_runs(tier, wd):
@@ -710,6 +710,28 @@ def _ops(c, mode, full):
     return ops
 
 
+SINGLE = ("to_affine()", ".scale()", "pickle.", "copy.copy", "copy.deepcopy", "mul_add", "verify good", ".to_bytes()")
+
+
+def _single_programs(c, mode, full):
+    """names of B operations that are also run ALONE (thread B = exactly this one complete operation): in the long
+    programme a later operation of B (a multiplication rebuilds the table) can repair what an earlier one has destroyed
+    before thread A goes on"""
+    return [n for n, _ in _ops(c, mode, full) if not n.startswith("other.") and any(k in n for k in SINGLE)]
+
+
+def _program(c, mode, full, bprog):
+    ops = _ops(c, mode, full)
+    if bprog:
+        ops = [(n, f) for n, f in ops if n == bprog]
+    return ops
+
+
+def _b_builds(c, mode, ops):
+    """does B's programme contain an operation that (re)builds the table of the shared object?"""
+    return mode != "scale" and any(("*" in n and "other" not in n) or "mul_add" in n or "verify" in n for n, _ in ops)
+
+
 def _run_ops(c, ops, obj, out=None, dur=None):
     out = [] if out is None else out
     for name, fn in ops:
@@ -830,8 +852,8 @@ def _gname(name, mode, opcode, deep, kind="pt", region="fn"):
                                "/whole-op" if region == "op" else "", "" if kind == "pt" else "/" + kind)
 
 
-def _expect(c, mode, full, ops):
-    key = (mode, full)
+def _expect(c, mode, full, ops, bprog=None):
+    key = (mode, full, bprog)
     if key not in c.expected:
         # "one after another": B's operations before A's operation, or after it.  (Computed by the parent process before
         # any worker is forked; here in a helper thread, so that not even a wedged library can hang the recorder.)
@@ -854,10 +876,12 @@ def _expect(c, mode, full, ops):
 
 def _event(c, task, **kw):
     name, mode, kind, opcode, deep = task["name"], task["mode"], task["kind"], task["opcode"], task["deep"]
-    e = {"tid": task["tid"], "grp": task["grp"], "op": kind, "mode": SPEC_MODE.get(mode, mode), "idx": task["idx"], "adj": not deep, "n": c.N}
+    e = {"tid": task["tid"], "grp": task["grp"], "op": kind, "mode": SPEC_MODE.get(mode, mode), "idx": task["idx"], "adj": not deep, "n": c.N,
+         "b_builds": _b_builds(c, mode, _program(c, mode, task["full"], task.get("bprog")))}
     e.update(kw)
     e.update({"_scen": mode, "_gran": "opcode" if opcode else "line", "_deep": bool(deep), "_curve": name, "_kind": kind,
-              "_g": _gname(name, mode, opcode, deep, kind, task.get("region", "fn")), "_region": task.get("region", "fn")})
+              "_g": task.get("g") or _gname(name, mode, opcode, deep, kind, task.get("region", "fn")), "_region": task.get("region", "fn"),
+              "_bprog": task.get("bprog") or ""})
     return e
 
 
@@ -876,8 +900,8 @@ def _point1(task):
     if task["kind"] != "pt":
         return _interrupted(c, task)
     mode, full, idx, opcode, deep = task["mode"], task["full"], task["idx"], task["opcode"], task["deep"]
-    ops = _ops(c, mode, full)
-    key, (exp, expA, _) = _expect(c, mode, full, ops)
+    ops = _program(c, mode, full, task.get("bprog"))
+    key, (exp, expA, _) = _expect(c, mode, full, ops, task.get("bprog"))
     short, long_ = _stalls(c, key)
     obj = _make(c, mode)
     aop = _a_op(c, mode)
@@ -1108,6 +1132,19 @@ def _lazy_part(rep, tier, wd, J):
             if j % CH == 0 and j > 0:       # chunk boundary: the event is also the last one of the previous chunk
                 tid += 1
                 tasks.append(dict(t, grp="%s/%d" % (gname, ch - 1), tid=-tid))
+        if region == "op" and kind == "pt" and mode != "scale":
+            # ... and thread B = ONE complete operation only (rescaling, copying, serialising, verifying), at the points
+            # after the construction (the last part of A's operation) and a few before
+            c_ = _ctx(name)
+            sub = idxs if name == "tiny" else [x for x in idxs if x < 6 or x >= K - 120]
+            for bp in _single_programs(c_, mode, full):
+                _expect(c_, mode, full, _program(c_, mode, full, bp), bp)
+                g2 = "%s/B=%s" % (gname, bp)
+                groups[g2] = {"preemption_points_total": K + 1, "points_run": len(sub), "B_operations_per_point": 0}
+                for j, idx in enumerate(sub):
+                    tid += 1
+                    tasks.append({"name": name, "mode": mode, "kind": kind, "opcode": opcode, "deep": deep, "full": full, "idx": idx,
+                                  "grp": "%s/%d" % (g2, j // CH), "tid": tid, "K": K, "g": g2, "region": region, "bprog": bp})
     for name in curves:                     # a multiplication that fails its precondition inside the table construction
         if name == "ed448":
             continue
@@ -1152,11 +1189,11 @@ def _lazy_part(rep, tier, wd, J):
     vacuity = []
     for gname, g in groups.items():
         pt = not gname.endswith(("/intr", "/fail"))
-        if pt and ("/table/" in gname or "/jtable/" in gname or "/ptable/" in gname) and not {0, max(g["table_len_seen_by_B"])} <= set(g["table_len_seen_by_B"]):
+        if pt and "/B=" not in gname and ("/table/" in gname or "/jtable/" in gname or "/ptable/" in gname) and not {0, max(g["table_len_seen_by_B"])} <= set(g["table_len_seen_by_B"]):
             vacuity.append("B never saw both the empty and the complete table in %s" % gname)
         if pt and "/scale/" in gname and len(g["coords_form_seen_by_B"]) < 2:
             vacuity.append("B never saw both coordinate forms in %s" % gname)
-        if "+callees" in gname and "inverse_mod" not in g["stopped_in"]:
+        if "+callees" in gname and "/B=" not in gname and "inverse_mod" not in g["stopped_in"]:
             vacuity.append("thread A was never stopped inside a callee (numbertheory.inverse_mod) in %s" % gname)
         if gname.endswith("/intr") and "Interrupt" not in g["A_ended_with"]:
             vacuity.append("thread A was never interrupted in %s" % gname)
@@ -1176,7 +1213,7 @@ def _lazy_part(rep, tier, wd, J):
         # (built from real events of the expected shape; if the real code never produced such an event - e.g. because it
         #  publishes the table early - the canaries are built from a synthesised well-formed event instead, so that the
         #  real events still reach the specification and are judged there)
-        clean = dict(res_bad=0, f_res_bad=0, blocked=0, pub_ok=True, co_ok=True, loc_ok=True, b_ok=True, b_co_ok=True, f_ok=True,
+        clean = dict(res_bad=0, f_res_bad=0, blocked=0, b_builds=True, pub_ok=True, co_ok=True, loc_ok=True, b_ok=True, b_co_ok=True, f_ok=True,
                      f_co_ok=True, b_z1=True, f_z1=True, op="pt")
         can = []
         tab = [e for e in sub if e["mode"] == "table"]
@@ -1188,6 +1225,9 @@ def _lazy_part(rep, tier, wd, J):
                     dict(mid, same=True, grp="canary4", _want="published-before-complete"),
                     dict(mid, blocked=2, grp="canary6", _want="blocked-forever"),
                     dict(mid, op="intr", f_res_bad=1, grp="canary7", _want="final-result")]
+            fulls = [e for e in tab if e["op"] == "pt" and e["pub_len"] == Nn and e["blocked"] == 0 and not e["res_bad"] and not e["f_res_bad"]]
+            if fulls:
+                can.append(dict(fulls[0], b_len=0, grp="canary8", _want="table-lost"))
         scs = [e for e in sub if e["mode"] == "scale" and e["op"] == "pt"]
         if scs:
             sc = dict(scs[0], **clean) if scs[0]["res_bad"] or scs[0]["blocked"] else scs[0]
